@@ -64,17 +64,22 @@ class Env:
         if self.know_type(deff[0]):
             return
 
-        # Replace all the symbols in expr with def_name+symbol
+        # Replace all the symbols in expr with def_name$symbol: "$" cannot occur in a python
+        # identifier, so a renamed symbol never collides with a variable of the caller
+        prefix = f"{deff[0]}$"
+
         def arg_rename(a):
-            a.name = f"{deff[0]}_{a.name}"
-            a.bitvec = list(map(lambda b: f"{deff[0]}_{b}", a.bitvec))
-            return a
+            # build a new Arg: the definition that was passed in must not be modified
+            return Arg(
+                f"{prefix}{a.name}",
+                a.ttype,
+                list(map(lambda b: f"{prefix}{b}", a.bitvec)),
+            )
 
         def exp_rename(se):
             s, e = se
-            for x in e.free_symbols:
-                e = e.subs(x, Symbol(f"{deff[0]}_{x.name}"))
-            return (Symbol(f"{deff[0]}_{s.name}"), e)
+            e = e.xreplace({x: Symbol(f"{prefix}{x.name}") for x in e.free_symbols})
+            return (Symbol(f"{prefix}{s.name}"), e)
 
         deff = (
             deff[0],  # name
